@@ -167,9 +167,10 @@ def run_program(prog, scheduler='default', policy='random', seed=0, ops=None, du
                 dup_budget -= 1
                 n += 1
                 continue
-            if c20 and not c20['dropped'] and en:
-                jb = [e for e in en if e[0] in ('job', 'lpoll')]
-                r0 = record(w.step(('dropjob', '_scheduled_on_action_complete')))
+            pc = w.pending_counts() if (c20 and c20.get('drop') == 'last') else None
+            if c20 and not c20['dropped'] and en and (pc is None or (pc['msgs'] == 0 and pc['ptq'] == 0)):
+                # drop == 'last': every accounting job of the with-items task is lost once all its items have reported
+                r0 = record(w.step(('dropjob', '_scheduled_on_action_complete') + (('all',) if pc is not None else ())))
                 if steps[-1]['ev'].get('n', 0):
                     c20['dropped'] = True
                 else:
